@@ -53,7 +53,11 @@ fn check(prop: &str, tier: &str) -> i32 {
                 "hyper's HTTP/1.1 parsing and tokio are explored through, not modelled".into(),
                 "bounded: request alphabet and sequence length as reported in coverage; any 2xx counts as success".into(),
             ];
-            e4::run_c13(tier, &mut r);
+            let mut r1 = Report::new(prop, tier, "model_checking");
+            e4::run_c13(tier, &mut r1);
+            let mut r2 = Report::new(prop, tier, "model_checking");
+            e4::run_streaming(&mut r2, "C13");
+            common::merge_reports(&mut r, vec![("E4-sequences", r1), ("E4-streaming", r2)]);
             r.finish()
         }
         "C06" => {
